@@ -36,6 +36,29 @@ def run_demo(demo: pathlib.Path, src: pathlib.Path):
     return r.returncode, (r.stdout + r.stderr)[-600:]
 
 
+def run_tests(wt: pathlib.Path):
+    """(pytest summary line, baseline-passing test ids that no longer pass) for the tree checked out at wt"""
+    import re as _re
+    from collections import Counter
+    junit = wt / "junit.xml"
+    env = dict(os.environ, PYTHONPATH=str(wt / "src"))
+    t = sh(["/venv/bin/python", "-m", "pytest", "-q", "-p", "no:cacheprovider", "--timeout=900", "--continue-on-collection-errors",
+            f"--junitxml={junit}"], cwd=str(wt), env=env, timeout=1800)
+    base = set(json.load(open("/root/.vp/BASELINE.json"))["stable_pass"])
+    passed = set()
+    if junit.exists():
+        for tc in ET.parse(junit).iter("testcase"):
+            if not any(c.tag in ("failure", "error", "skipped") for c in tc):
+                passed.add(f"{tc.get('classname')}::{tc.get('name')}")
+
+    def norm(i):  # doctest ids carry line numbers, which any edit above them shifts
+        return _re.sub(r"::line:\d+,column:\d+$", "::doctest", i)
+
+    cb, cp = Counter(map(norm, base)), Counter(map(norm, passed))
+    missing = sorted((cb - cp).elements())
+    return (t.stdout.strip().splitlines()[-1] if t.stdout.strip() else ""), missing
+
+
 def main():
     srcdir, n, sid = pathlib.Path(sys.argv[1]), sys.argv[2], sys.argv[3]
     skip_tests = "--skip-tests" in sys.argv
